@@ -107,9 +107,11 @@ impl KeyValueStore {
         let imm = None;
         let imm_trigger = 0;
         let mem = Arc::new(MemTable::default());
+        // NOTE:  The log is named after the number the memtable carries, because that number is
+        // what the flush records as 'L' in the manifest and what the verifier looks for in trash.
+        seq_no = std::cmp::max(seq_no, tree.max_timestamp());
         let mem_path = LOG_FILE(&root, seq_no);
         let mem_log = Self::start_new_log(&mem_path, options.log.clone())?;
-        seq_no = std::cmp::max(seq_no, tree.max_timestamp());
         let mem_seq_no = seq_no;
         seq_no += 1;
         let state = Mutex::new(KeyValueStoreState {
